@@ -387,7 +387,7 @@ def lift_and_replay(ev, num, q, clause_prop=None):
         lines = core.state_lines(vals, 2, 'kind twin')
     else:
         # an invariant failure violates no clause by itself: let the replay search short continuations on the real build
-        lines = core.state_lines(vals, 2 if m['kind'] == 'k2x2' else 1, explore=(2 if m.get('prop') == 0 else 0))
+        lines = core.state_lines(vals, 2 if m['kind'] == 'k2x2' else 1, explore=(4 if m.get('prop') == 0 else 0))
     cp = clause_prop if clause_prop is not None else num
     variant = 'san' if num == 8 else 'plain'
     ratio = q.defines.get('T_RATIO4')
